@@ -1,28 +1,60 @@
 /-
-  The translated `Bar.copy` (Gen/ElemFns.lean) of a bar built by the translated `Bar.__init__`, for every
-  `default_channel`: "copying a bar yields an equal bar" — `Props/ElemTie.lean` (`barInit_eq_ch`: the translation is
-  `mkBarCh`) composed with `Props/C10Ch.lean` (`bar_copy_ch`: `mkBarCh`'s copy on the bar's channel is an equal bar).
+  The translated `Bar.copy` (Gen/ElemFns.lean) of ANY bar whose current relative view is in bar shape — a bar built by the
+  translated `Bar.__init__` with any `default_channel`, and such a bar after `set_channel` / `transpose`: "copying a bar
+  yields an equal bar" — `Props/ElemTie.lean` (`barInit_eq_ch`: the translated constructor is `mkBarCh`; `barCopy_eq`: the
+  translated copy constructs on the channel of the bar's own signature event) composed with `Lemmas/BarChL.lean`
+  (`shape_rebuild`: a view in bar shape is rebuilt with the same events).
   This is the statement that finding D37 refuted for the unrepaired library (`Bar.copy` built the copy with the
-  constructor's default channel 0).  Kept apart from ElemTie.lean, whose `simp` proofs need the small import set.
+  constructor's default channel 0) and audit round 4 (D1) for the first repair (source commit f9ef398: the channel stored at
+  construction, stale after `set_channel`).  Kept apart from ElemTie.lean, whose `simp` proofs need the small import set.
 -/
 import SCoda.Props.ElemTie
 import SCoda.Props.C10Ch
 namespace SCoda.ElemTieCh
-open SCoda SCoda.WrapTie SCoda.ElemTie
+open SCoda SCoda.WrapTie SCoda.ElemTie SCoda.BarChL
 
-/-- **copying a constructed bar yields an equal bar, for every `default_channel`** (the clause of C10 that D37
-    violated, now for the translated `Bar.copy` itself): the copy of a bar built by the translated constructor always
-    succeeds, leaves the bar unchanged, and the copy has the same numerator, denominator, key and `default_channel`, the
-    same timed events — the leading time signature on channel `chanOf default_channel` among them — and the same
-    duration (`Roll` semantics of the relative views), and is again in the constructed state. -/
-theorem barCopy_equal (e : Env) (s : Seq) (n d key c : Int) (hn : 0 ≤ n) (hd : 0 < d) (hp : 0 ≤ e.ppqn) (g : GBar)
+/-- **whenever `Bar.copy()` is called on a bar whose CURRENT relative view is in bar shape, it succeeds, the copy's leading
+    time-signature event is on the channel of the ORIGINAL's leading time-signature event AS IT IS NOW, and the copy equals
+    the original** (audit round 4, D1 and the C6 remark): for every bar record `g` and every wrapper state of its sequence
+    in which the relative view can be read (`hr`: `g.sequence.rel` returns `rel`, leaving the wrapper as `s'` — the
+    original is unchanged except that a stale relative view has been regenerated), if `rel` is in bar shape for the bar's
+    signature (`BarChL.BarShape`: starts with the bar's time-signature message on some channel `c`, no other signature
+    message, non-negative waits adding up to the capacity, note-ons / note-offs paired per (channel, pitch), no repeated
+    key signature) then the copy has the bar's numerator, denominator and key, the same timed events — the leading time
+    signature on channel `c` among them — and the same duration (`Roll` semantics), is in the constructed state and in
+    bar shape again.
+    The constructor establishes the shape (`barInit_barShape`); `Sequence.set_channel` keeps it as long as the notes still
+    pair up afterwards (`setChannel_barShape`; it moves the signature event, which is why a channel remembered from
+    construction goes stale), `transpose` without octave wrap likewise (`BarChL.shape_transposeRel`).
+    `hn hd hp`: the domain on which Python's float capacity is the model's (`barInit_eq_ch`). -/
+theorem barCopy_equal_any (e : Env) (g : GBar) (hn : 0 ≤ g.num) (hd : 0 < g.den) (hp : 0 ≤ e.ppqn)
+    (s' : Seq) (rel : List Msg) (hr : g.sequence.readRel = .ok (s', rel))
+    (hs : BarShape e.ppqn rel g.num g.den) :
+    ∃ cpy c, Gen.Elem.barCopy e g = .ok ({ g with sequence := s' }, cpy) ∧
+      cpy.num = g.num ∧ cpy.den = g.den ∧ cpy.key = g.key ∧
+      eventsRel cpy.sequence.rel = eventsRel rel ∧ durRel cpy.sequence.rel = durRel rel ∧
+      c ≠ pyNone ∧ sigChan rel = c ∧
+      rel.head? = some (Msg.mkTimeSig c g.num g.den pyNone) ∧
+      cpy.sequence.rel.head? = some (Msg.mkTimeSig c g.num g.den pyNone) ∧
+      cpy.sequence.absStale = true ∧ cpy.sequence.relStale = false ∧ BarShape e.ppqn cpy.sequence.rel g.num g.den := by
+  obtain ⟨c, hc, hsc, hh, hmk, hev, hdur, hsh⟩ := shape_rebuild g.key hs
+  refine ⟨{ sequence := { abs := s'.copy.abs, rel := barSeqCh c e.ppqn rel g.num g.den, absStale := true, relStale := false },
+            num := g.num, den := g.den, key := g.key }, c, ?_, rfl, rfl, rfl, hev, hdur, hc, hsc, hh, rfl, rfl, rfl, hsh⟩
+  rw [barCopy_eq, hr]
+  simp only [ok_bind]
+  rw [barInit_eq_ch e _ g.num g.den g.key _ hn hd hp, (readRel_fresh hr).2.2.2]
+  simp only [ok_bind]
+  rw [hmk]
+  rfl
+
+/-- **what the constructor guarantees**: the relative view of a bar built by the translated `Bar.__init__` (any
+    `default_channel`) is in bar shape, fresh, and its signature event is on channel `chanOf default_channel` -/
+theorem barInit_barShape (e : Env) (s : Seq) (n d key c : Int) (hn : 0 ≤ n) (hd : 0 < d) (hp : 0 ≤ e.ppqn) (g : GBar)
     (hg : Gen.Elem.barInit e s n d key c = .ok g) :
-    ∃ cpy, Gen.Elem.barCopy e g = .ok (g, cpy) ∧
-      cpy.num = g.num ∧ cpy.den = g.den ∧ cpy.key = g.key ∧ cpy.defaultChannel = g.defaultChannel ∧
-      eventsRel cpy.sequence.rel = eventsRel g.sequence.rel ∧ durRel cpy.sequence.rel = durRel g.sequence.rel ∧
-      cpy.sequence.rel.head? = some (Msg.mkTimeSig (chanOf c) n d pyNone) ∧
-      g.sequence.rel.head? = some (Msg.mkTimeSig (chanOf c) n d pyNone) ∧
-      cpy.sequence.absStale = true ∧ cpy.sequence.relStale = false := by
+    g.sequence.readRel = .ok (g.sequence, g.sequence.rel) ∧ BarShape e.ppqn g.sequence.rel g.num g.den ∧
+      sigChan g.sequence.rel = chanOf c := by
+  obtain ⟨_, g2, g3, g4, _, g7⟩ := barInit_shape e s n d key c g hg
+  refine ⟨by simp [Seq.readRel, g2], ?_, sigChan_of_head g7⟩
   rw [barInit_eq_ch e s n d key c hn hd hp] at hg
   cases hr : s.readRel with
   | error x => rw [hr] at hg; cases hg
@@ -41,21 +73,105 @@ theorem barCopy_equal (e : Env) (s : Seq) (n d key c : Int) (hn : 0 ≤ n) (hd :
         injection h with h1 h2
         rw [h1] at hn
         exact absurd hn (by decide)
-      obtain ⟨b', hc, c1, c2, c3, c4, c5, c6, c7⟩ := C10Ch.bar_copy_ch e.ppqn p.2 n d key (chanOf c) b hnd hm
-      obtain ⟨f1, f2, f3, _⟩ := mkBarCh_fields hm
-      unfold Bar.copyCh at hc
-      rw [f1, f2, f3] at hc
-      refine ⟨{ sequence := { abs := [], rel := b'.seq, absStale := true, relStale := false }, num := n, den := d, key := key,
-                defaultChannel := c }, ?_, rfl, rfl, rfl, rfl, c4, c5, c6, c7, rfl, rfl⟩
-      simp only [Gen.Elem.barCopy, copy_eq, ok_bind]
-      rw [barInit_eq_ch e _ n d key c hn hd hp]
-      simp [Seq.copy, Seq.ofRel, Seq.readRel, hc]
+      exact mkBarCh_shape hnd (chanOf_ne_none c) hm
+
+/-- **`bar.sequence.set_channel(c)` (as translated) keeps a bar in bar shape and moves its signature event to channel `c`**,
+    provided the notes still pair up per (channel, pitch) afterwards (`hwf` — a decidable condition on the bar's current
+    content and `c`; it fails when two channels hold overlapping notes of one pitch, see `C10Ch.merged_channels_copy_differs`)
+    and `c` is a channel, not `None` -/
+theorem setChannel_barShape (e : Env) (g : GBar) (c : Int) (hc : c ≠ pyNone) (s' : Seq) (rel : List Msg)
+    (hr : g.sequence.readRel = .ok (s', rel)) (hs : BarShape e.ppqn rel g.num g.den) (hwf : WF (setChannel c rel)) :
+    ∃ s2, Gen.Wrap.setChannel e g.sequence c = .ok (s2, ()) ∧ s2.readRel = .ok (s2, setChannel c rel) ∧
+      BarShape e.ppqn (setChannel c rel) g.num g.den ∧ sigChan (setChannel c rel) = c := by
+  have hsh := shape_setChannel c hc hs hwf
+  have hfr := readRel_fresh hr
+  refine ⟨{ s' with rel := setChannel c rel, absStale := true }, ?_, ?_, hsh, ?_⟩
+  · rw [setChannel_eq]
+    simp [unit, Seq.setChannelSeq, Seq.onRel, hr]
+  · simpa [Seq.readRel] using hfr.1
+  · obtain ⟨c0, body0, _, hrel0, _⟩ := hs.head
+    rw [hrel0]
+    simp [sigChan, setChannel, Msg.mkTimeSig]
+
+/-- **copying a constructed bar yields an equal bar, for every `default_channel`** (the clause of C10 that D37
+    violated, now for the translated `Bar.copy` itself; the instance "not edited since construction" of
+    `barCopy_equal_any`): the copy of a bar built by the translated constructor always succeeds, leaves the bar unchanged,
+    and the copy has the same numerator, denominator and key, the same timed events — the leading time signature on
+    channel `chanOf default_channel` among them — and the same duration (`Roll` semantics of the relative views), and is
+    again in the constructed state. -/
+theorem barCopy_equal (e : Env) (s : Seq) (n d key c : Int) (hn : 0 ≤ n) (hd : 0 < d) (hp : 0 ≤ e.ppqn) (g : GBar)
+    (hg : Gen.Elem.barInit e s n d key c = .ok g) :
+    ∃ cpy, Gen.Elem.barCopy e g = .ok (g, cpy) ∧
+      cpy.num = g.num ∧ cpy.den = g.den ∧ cpy.key = g.key ∧
+      eventsRel cpy.sequence.rel = eventsRel g.sequence.rel ∧ durRel cpy.sequence.rel = durRel g.sequence.rel ∧
+      cpy.sequence.rel.head? = some (Msg.mkTimeSig (chanOf c) n d pyNone) ∧
+      g.sequence.rel.head? = some (Msg.mkTimeSig (chanOf c) n d pyNone) ∧
+      cpy.sequence.absStale = true ∧ cpy.sequence.relStale = false := by
+  obtain ⟨_, _, g3, g4, _, g7⟩ := barInit_shape e s n d key c g hg
+  obtain ⟨hrd, hsh, hsc⟩ := barInit_barShape e s n d key c hn hd hp g hg
+  obtain ⟨cpy, c', hcp, c1, c2, c3, c4, c5, _, hsc', hh, hh', c6, c7, _⟩ :=
+    barCopy_equal_any e g (g3 ▸ hn) (g4 ▸ hd) hp g.sequence g.sequence.rel hrd hsh
+  have hcc : c' = chanOf c := hsc'.symm.trans hsc
+  subst hcc
+  rw [g3, g4] at hh'
+  exact ⟨cpy, hcp, c1, c2, c3, c4, c5, hh', g7, c6, c7⟩
+
+/-- **the composition the audit asked for (round 4, D1)**: build a bar with any `default_channel`, move its sequence to channel
+    `c'` with the translated `Sequence.set_channel`, copy it with the translated `Bar.copy` — the copy equals the bar AS IT
+    IS NOW, its signature event on channel `c'` (not on the construction-time channel), provided the notes of the bar still
+    pair up after the move (`hwf`, stated on the constructed bar's content) -/
+theorem barCopy_after_setChannel (e : Env) (s : Seq) (n d key c c' : Int) (hn : 0 ≤ n) (hd : 0 < d) (hp : 0 ≤ e.ppqn) (g : GBar)
+    (hg : Gen.Elem.barInit e s n d key c = .ok g) (hc' : c' ≠ pyNone) (hwf : WF (setChannel c' g.sequence.rel)) :
+    ∃ s2 cpy, Gen.Wrap.setChannel e g.sequence c' = .ok (s2, ()) ∧
+      Gen.Elem.barCopy e { g with sequence := s2 } = .ok ({ g with sequence := s2 }, cpy) ∧
+      s2.rel = setChannel c' g.sequence.rel ∧
+      cpy.num = n ∧ cpy.den = d ∧ cpy.key = key ∧
+      eventsRel cpy.sequence.rel = eventsRel s2.rel ∧ durRel cpy.sequence.rel = durRel s2.rel ∧
+      s2.rel.head? = some (Msg.mkTimeSig c' n d pyNone) ∧
+      cpy.sequence.rel.head? = some (Msg.mkTimeSig c' n d pyNone) := by
+  obtain ⟨_, _, g3, g4, g5, _⟩ := barInit_shape e s n d key c g hg
+  obtain ⟨hrd, hsh, _⟩ := barInit_barShape e s n d key c hn hd hp g hg
+  obtain ⟨s2, hset, hrd2, hsh2, hsc2⟩ := setChannel_barShape e g c' hc' g.sequence g.sequence.rel hrd hsh hwf
+  have hrel2 : s2.rel = setChannel c' g.sequence.rel := (readRel_fresh hrd2).2.1
+  obtain ⟨cpy, c2, hcp, c1, c2', c3, c4, c5, _, hsc', hh, hh', _, _, _⟩ :=
+    barCopy_equal_any e { g with sequence := s2 } (g3 ▸ hn) (g4 ▸ hd) hp s2 (setChannel c' g.sequence.rel) hrd2 hsh2
+  have : c2 = c' := hsc'.symm.trans hsc2
+  subst this
+  simp only at c1 c2' c3 hh hh'
+  rw [g3, g4] at hh hh'
+  exact ⟨s2, cpy, hset, hcp, hrel2, c1.trans g3, c2'.trans g4, c3.trans g5, hrel2 ▸ c4, hrel2 ▸ c5, hrel2 ▸ hh, hh'⟩
 
 /-! non-vacuity: the recorded input of D37 (channel 3) satisfies the hypotheses (`ElemTie.exD37Bar` is the constructed bar,
-    kernel-evaluated there); the conclusion evaluated: the copy is the bar -/
+    kernel-evaluated there); the conclusion evaluated: the copy is the bar.  Then the audit's witness: the same bar after
+    `set_channel(0)` (`ElemTie.exD37Bar0`): hypotheses of `barCopy_equal_any` / `barCopy_after_setChannel`, and the conclusion evaluated. -/
 set_option maxRecDepth 100000 in
 example : 0 ≤ genEnv.ppqn ∧ (0 : Int) ≤ 4 ∧ (0 : Int) < 4 ∧
     Gen.Elem.barInit genEnv (Seq.ofRel exD37) 4 4 pyNone 3 = .ok exD37Bar ∧
     Gen.Elem.barCopy genEnv exD37Bar = .ok (exD37Bar, exD37Bar) := by decide +kernel
+
+/-- the constructed bar is in bar shape (from the constructor) -/
+example : BarShape genEnv.ppqn exD37Bar.sequence.rel 4 4 :=
+  (barInit_barShape genEnv (Seq.ofRel exD37) 4 4 pyNone 3 (by decide) (by decide) (by decide) exD37Bar (by decide +kernel)).2.1
+
+/-- the side condition of `setChannel_barShape` / `barCopy_after_setChannel` on the audit's witness: after the move to channel 0
+    the one note of the bar still pairs up -/
+theorem witness_wf : WF (setChannel 0 exD37Bar.sequence.rel) := by
+  intro k
+  by_cases hk : k = (0, 60)
+  · subst hk
+    simp [altFrom, setChannel, exD37Bar, Msg.mkTimeSig, Msg.mkOn, Msg.mkWait, Msg.mkOff, Msg.nkey]
+  · have h1 : ¬ ((0 : Int), (60 : Int)) = k := fun h => hk h.symm
+    simp [altFrom, setChannel, exD37Bar, Msg.mkTimeSig, Msg.mkOn, Msg.mkWait, Msg.mkOff, Msg.nkey, h1]
+
+set_option maxRecDepth 100000 in
+/-- the audit's witness satisfies every hypothesis of `barCopy_equal_any` (relative view fresh and in bar shape), and the
+    conclusion evaluated by the kernel: the copy is the bar as it is now, signature event on channel 0 -/
+example : exD37Bar0.sequence.readRel = .ok (exD37Bar0.sequence, exD37Bar0.sequence.rel) ∧
+    BarShape genEnv.ppqn exD37Bar0.sequence.rel 4 4 ∧
+    Gen.Elem.barCopy genEnv exD37Bar0 = .ok (exD37Bar0, exD37Bar0) ∧
+    exD37Bar0.sequence.rel.head? = some (Msg.mkTimeSig 0 4 4 pyNone) := by
+  refine ⟨rfl, ?_, by decide +kernel, rfl⟩
+  exact shape_setChannel (r := exD37Bar.sequence.rel) 0 (by decide)
+    (barInit_barShape genEnv (Seq.ofRel exD37) 4 4 pyNone 3 (by decide) (by decide) (by decide) exD37Bar (by decide +kernel)).2.1 witness_wf
 
 end SCoda.ElemTieCh
